@@ -10,6 +10,7 @@ package c10loop
 import (
 	"context"
 	"fmt"
+	"strings"
 	"testing"
 	"time"
 
@@ -278,30 +279,48 @@ var c10Bundles = [][2]uint16{
 // generation-time state
 type c10RawOp struct {
 	P, KI, N int
-	CF, AF   uint16
+	NCF      int // number of cloud fault bits (0..2)
+	CFa, CFb int // selectors into the fault bits relevant for the op kind
+	Bundle   int // -1 none, else index into c10Bundles (pod controller steps)
+	AF       uint16
 	Conflict bool
 	Mid      *c10Mid
 }
 
+// cloud fault bits that can matter for a step of the given kind
+var c10CFRelevant = map[string][]uint16{
+	"rpod":  {c10CFCreate0, c10CFCreate1, c10CFDelete0, c10CFDelete1, c10CFVSwitch},
+	"reni":  {c10CFAttach0, c10CFAttach1, c10CFDetach0, c10CFDetach1, c10CFDelete0, c10CFDelete0, c10CFDelete1, c10CFDelete1, c10CFDescribe},
+	"gccr":  {c10CFDescribe},
+	"gcsec": {c10CFDescribe, c10CFDelete0, c10CFDelete1},
+	"gcmem": {c10CFDescribe, c10CFDetach0, c10CFDetach1},
+}
+
+var c10MidKinds = []string{"gone-rpod", "gone-rpod", "gone-rpod", "exit-rpod", "delete-rpod", "gone", "gone", "delete", "exit", "create", "create-rpod", "rpod", "rpod", "reni"}
+
 func c10GenRawOp(np int, pct int) *rapid.Generator[c10RawOp] {
 	return rapid.Custom(func(t *rapid.T) c10RawOp {
-		r := c10RawOp{P: rapid.IntRange(0, np-1).Draw(t, "p"), KI: rapid.IntRange(0, 63).Draw(t, "ki"), N: rapid.IntRange(0, c10Nodes-1).Draw(t, "n")}
-		r.CF = c10GenBits(t, "cf", c10CFBits, pct)
+		r := c10RawOp{P: rapid.IntRange(0, np-1).Draw(t, "p"), KI: rapid.IntRange(0, 63).Draw(t, "ki"), N: rapid.IntRange(0, c10Nodes-1).Draw(t, "n"), Bundle: -1}
+		if rapid.IntRange(0, 99).Draw(t, "cf?") < pct {
+			r.NCF = rapid.SampledFrom([]int{1, 1, 1, 2}).Draw(t, "ncf")
+			r.CFa = rapid.IntRange(0, 63).Draw(t, "cfa")
+			r.CFb = rapid.IntRange(0, 63).Draw(t, "cfb")
+		}
 		r.AF = c10GenBits(t, "af", c10AFBits, pct)
 		if pct > 0 && rapid.IntRange(0, 99).Draw(t, "bundle?") < pct {
 			// faults between interface creation and record creation (rollback), alone or
 			// together with a failing rollback delete
-			b := rapid.SampledFrom(c10Bundles).Draw(t, "bundle")
-			r.CF |= b[0]
-			r.AF |= b[1]
+			r.Bundle = rapid.IntRange(0, len(c10Bundles)-1).Draw(t, "bundle")
 		}
 		if r.AF&(c10AFUpdate|c10AFStatusUpdate) != 0 {
 			r.Conflict = rapid.Bool().Draw(t, "conflict")
 		}
-		if rapid.IntRange(0, 11).Draw(t, "mid?") == 0 {
-			m := &c10Mid{K: rapid.SampledFrom([]string{"gone", "gone", "delete", "exit", "create", "rpod", "reni"}).Draw(t, "midk")}
-			m.P = rapid.IntRange(0, np-1).Draw(t, "midp")
-			if m.K == "create" {
+		if rapid.IntRange(0, 7).Draw(t, "mid?") == 0 {
+			m := &c10Mid{K: rapid.SampledFrom(c10MidKinds).Draw(t, "midk"), P: r.P}
+			if np > 1 && rapid.IntRange(0, 3).Draw(t, "midother") == 0 {
+				m.P = rapid.IntRange(0, np-1).Draw(t, "midp")
+			}
+			if strings.HasPrefix(m.K, "create") {
 				m.N = rapid.IntRange(0, c10Nodes-1).Draw(t, "midn")
 			}
 			r.Mid = m
@@ -321,11 +340,14 @@ func c10GenLoop(t *rapid.T) c10Scenario {
 	state := make([]string, np)
 	for i := 0; i < np; i++ {
 		nets := rapid.SliceOfN(rapid.Custom(func(t *rapid.T) c10Net { return c10GenNet(t) }), 1, 2).Draw(t, "nets")
+		if len(nets) == 1 && rapid.IntRange(0, 2).Draw(t, "second") == 0 {
+			nets = append(nets, c10GenNet(t))
+		}
 		s.Pods = append(s.Pods, c10PodSpec{Nets: nets})
 		state[i] = "absent"
 	}
 	faulty := rapid.IntRange(0, 3).Draw(t, "faulty") // 0,1: no faults, 2: few, 3: many
-	pct := []int{0, 0, 6, 20}[faulty]
+	pct := []int{0, 0, 8, 30}[faulty]
 	// rapid's slices average about min+5 elements whatever the maximum is; several
 	// segments give histories of about 20 (thorough: 30) steps that still shrink to nothing
 	var raw []c10RawOp
@@ -334,6 +356,14 @@ func c10GenLoop(t *rapid.T) c10Scenario {
 	}
 	if len(raw) == 0 {
 		raw = append(raw, c10GenRawOp(np, pct).Draw(t, "op"))
+	}
+	if pct > 0 && rapid.IntRange(0, 1).Draw(t, "outage?") == 1 {
+		// one kind of cloud call fails for one interface slot during a window of the history
+		o := &c10Outage{CF: rapid.SampledFrom([]uint16{c10CFDelete0, c10CFDelete1, c10CFDelete0, c10CFDelete1, c10CFDetach0, c10CFDetach1,
+			c10CFAttach0, c10CFAttach1, c10CFCreate0, c10CFCreate1}).Draw(t, "outagecf")}
+		o.From = rapid.IntRange(0, len(raw)-1).Draw(t, "outagefrom")
+		o.To = o.From + rapid.IntRange(1, 15).Draw(t, "outagelen")
+		s.Outage = o
 	}
 	for _, r := range raw {
 		kinds := c10KindsByState[state[r.P]]
@@ -351,7 +381,18 @@ func c10GenLoop(t *rapid.T) c10Scenario {
 		case "exit":
 			state[op.P] = "exited"
 		case "rpod", "reni", "gccr", "gcsec", "gcmem":
-			op.CF, op.AF, op.Conflict = r.CF, r.AF, r.Conflict
+			op.AF, op.Conflict = r.AF, r.Conflict
+			rel := c10CFRelevant[op.K]
+			if r.NCF >= 1 {
+				op.CF |= rel[r.CFa%len(rel)]
+			}
+			if r.NCF >= 2 {
+				op.CF |= rel[r.CFb%len(rel)]
+			}
+			if op.K == "rpod" && r.Bundle >= 0 {
+				op.CF |= c10Bundles[r.Bundle][0]
+				op.AF |= c10Bundles[r.Bundle][1]
+			}
 			if op.K != "gccr" {
 				op.Mid = r.Mid
 			}
